@@ -36,7 +36,7 @@ def check_swap(ctx: Ctx, rid_pair: str, rid_region: str, pm: ParserModel) -> Non
     for fname, sts in sorted(by_fn.items()):
         fn = pm.fn(fname)
         cfg = pm.cfg(fname)
-        rd = reaching_defs(cfg)
+        rd = reaching_defs(cfg, skip_exc=False)
         # the try/finally statements of the function
         tries = [t for t in walk_local(fn) if isinstance(t, ast.Try) and t.finalbody]
         for st in sts:
@@ -50,7 +50,9 @@ def check_swap(ctx: Ctx, rid_pair: str, rid_region: str, pm: ParserModel) -> Non
                 ok = isinstance(v, ast.Name) and n is not None
                 why = ""
                 if ok:
-                    defs = [cfg.nodes[i] for i in rd.get(n.id, {}).get(v.id, ())]
+                    # the finally block exists in several copies (normal / exceptional / return): all of them count
+                    copies = [m for m in cfg.nodes if m.stmt is st and m.id in rd]
+                    defs = [cfg.nodes[i] for m in copies for i in rd.get(m.id, {}).get(v.id, ())]
                     ok = bool(defs) and all(is_self_attr(getattr(d.stmt, "value", None), "lex") for d in defs)
                     # the read happens before the try (not inside its body)
                     ok = ok and all(not any(x is d.stmt for b in t.body for x in ast.walk(b)) for d in defs)
